@@ -150,6 +150,9 @@ theorem pollNth_hist (s : State) (j : Nat) : SameHist s (pollNth s j) := by
   split
   · rename_i t _
     cases t
+    · show SameHist s (pollT0 s)
+      unfold pollT0
+      split <;> exact ⟨rfl, rfl, rfl, id⟩
     · exact pollD_hist s
     · exact SameHist.trans ⟨rfl, rfl, rfl, id⟩ (eLoop_hist 4 _)
     · exact ⟨rfl, rfl, rfl, id⟩
@@ -266,15 +269,18 @@ theorem settled_waiting {s : State} (h : Inv s) (hs : settled s = true) :
   simp only [settled, Bool.and_eq_true, decide_eq_true_eq, List.isEmpty_iff] at hs
   obtain ⟨hst, hrl⟩ := hs
   obtain ⟨hd, he, ha⟩ := readyList_nil hrl
-  obtain ⟨⟨r1, r2, r7, m1, aw, s1, s2⟩, ⟨r3, r4, r5, r6, fresh⟩, _, _⟩ := h
+  obtain ⟨⟨r1, r2, r7, m1, aw, s1, s2, t1⟩, ⟨r3, r4, r5, r6, fresh⟩, _, _⟩ := h
   have hpc : s.pc = .waiting := by
     cases hp : s.pc
     · have := (r3 hp).1; simp [hd] at this
     · rfl
-    · obtain ⟨h1, _, h3⟩ := r6 hp
+    · obtain ⟨h1, _, h3, _⟩ := r6 hp
       rcases h1 with h1 | h1
       · exact absurd h1 hst
-      · have := h3 h1; simp [hd] at this
+      · -- the result is there: either the tick has fired (then the task is woken) or the tick task is live
+        cases htf : s.tickFired
+        · exact absurd (t1 htf) (not_tickLive_of_idle hrl)
+        · have := h3 htf h1; simp [hd] at this
   obtain ⟨hl, hw⟩ := r5 hpc
   obtain ⟨_, hch⟩ := hw hd
   refine ⟨hpc, hl, ?_, hrl, ?_⟩
@@ -333,7 +339,7 @@ theorem C10_settles_on_latest_history (c : Cfg) (es : List Event)
 /-- At every settled point every task that awaited the derived has been resumed with a value
 (no awaiter is left parked in `wakers`, none is still waiting to be polled). -/
 theorem C10_awaiters_resumed (c : Cfg) (es : List Event) (hs : settled (run c es) = true) :
-    ∀ a ∈ (run c es).aws, a.done = true ∧ a.parked = false ∧ a.result ≠ none := by
+    ∀ a ∈ (run c es).aws, a.done = true ∧ a.parked = false ∧ (a.kind ≠ .tick → a.result ≠ none) := by
   have h := Inv.run c es
   obtain ⟨_, hl, _, hrl, _⟩ := settled_waiting h hs
   obtain ⟨_, _, hw⟩ := readyList_nil hrl
@@ -357,7 +363,7 @@ theorem awsResumed_of_settled (c : Cfg) (es : List Event) (hs : settled (run c e
   rw [List.all_eq_true]
   intro a ha
   obtain ⟨h1, _, h3⟩ := C10_awaiters_resumed c es hs a ha
-  cases hr : a.result <;> simp_all
+  cases hk : a.kind <;> cases hr : a.result <;> simp_all
 
 /-- An awaiter is only ever resumed while the loading indication is off, and then with the value the
 derived holds: never `None` (the `unwrap` in `AsyncDerivedFuture::poll` cannot panic). -/
@@ -394,7 +400,7 @@ theorem dIter_value (s : State) :
   · split
     · split
       · rename_i hr
-        obtain ⟨h1, h2⟩ := fetchState_ready s hr
+        obtain ⟨h1, h2⟩ := fetchState_ready s hr.2
         rcases applyResult_value (fetchState s) with h | h
         · exact .inl (h.trans (fetchState_value s))
         · exact .inr ⟨h1, by rw [← h2]; exact h⟩
@@ -440,7 +446,7 @@ theorem pollD_value (s : State) :
       rcases dLoop3_value (applyResult { s with dWoken := false }) with h | ⟨h, _⟩
       · rcases applyResult_value { s with dWoken := false } with h' | h'
         · exact .inl (h.trans h')
-        · exact .inr ⟨hr, h.trans h'⟩
+        · exact .inr ⟨hr.2, h.trans h'⟩
       · rw [applyResult_curStatus] at h; simp at h
     · exact .inl rfl
 
@@ -527,6 +533,10 @@ theorem C10_sync_read_is_previous_or_none (s : State) (e : Event) :
     split
     · rename_i t _
       cases t
+      · refine .inl ?_
+        show (pollT0 s).value = s.value
+        unfold pollT0
+        split <;> rfl
       · rcases pollD_value s with h | ⟨h1, h2⟩
         · exact .inl h
         · exact .inr (.inr ⟨j, rfl, h1, h2⟩)
